@@ -954,6 +954,28 @@ def _prefix_priority(h, N, side):
     return h
 
 
+def _prefix_spaceget(h, N):
+    """n ready items, one granted retrieval, s space requests (granted while there is room, then pending): what a get must wake up"""
+    ctx = h.ctx
+    ad = h.ad
+    n = 1 + ctx.choice(N, "n_ready")
+    for i in range(n):
+        t = h.do_reserve_put()
+        ctx.assume(t.state == "granted")
+        g = h.do_put(t, key=0 if ad.filt else None)
+        if ad.timed and ad.avail == "ghost_delay":
+            gap = ctx.real("gap", 0)
+            ctx.assume(gap >= g.delay)
+            h.advance(gap)
+    if ad.timed and ad.avail != "ghost_delay":
+        h.advance(ad.final_gap(h))
+    for _ in range(1 + ctx.choice(2, "n_reserve_get")):
+        h.do_reserve_get()
+    for _ in range(1 + ctx.choice(3, "n_reserve_put")):
+        h.do_reserve_put()
+    return h
+
+
 def _prefix_arrivals(h, N):
     """m retrieval requests wait on an empty store, then n items are put (symbolic delays: they may become available in one instant)"""
     ctx = h.ctx
@@ -995,6 +1017,8 @@ def scenario(store, family, N=3, K=2, oracles=("C01", "C02", "C04", "C05", "C06"
             _prefix_priority(h, N, "put")
         elif family == "arrivals":
             _prefix_arrivals(h, N)
+        elif family == "spaceget":
+            _prefix_spaceget(h, N)
         elif family == "empty":
             pass
         else:
@@ -1206,11 +1230,14 @@ def _probe(h, quiescent):
     h.observe()
 
 
-def scenario_c11(store, N=2, K=2, cap_max=None, twin=False, R2=1, RMAX=9, S=2, TRN=1):
+def scenario_c11(store, N=2, K=2, cap_max=None, twin=False, R2=1, RMAX=9, S=2, TRN=1, family="retrieval"):
     def fn(ctx):
         ad = adapter(store)
         h = Harness(ctx, ad, ("C11",), cap_max=cap_max)
-        _prefix_retrieval(h, N, with_transit=True, with_space=True, R2=R2, USE=False, RMAX=RMAX, S=S, TRN=TRN)
+        if family == "spaceget":
+            _prefix_spaceget(h, N)
+        else:
+            _prefix_retrieval(h, N, with_transit=True, with_space=True, R2=R2, USE=False, RMAX=RMAX, S=S, TRN=TRN)
         ctx.hit("prefix-done")
         _probe(h, False)
         for _ in range(K):
